@@ -366,6 +366,95 @@ READ_ONLY = [
 ]
 
 
+# reflection sweep over the public API (DESIGN §6/C01): every public callable not in the skip-list is
+# called with generated arguments on the view and on a fresh sequence built from the view's string
+SKIP_METHODS = {
+    # mutators / annotation & coordinate plumbing (C04, C10) / random / drawing / IO
+    "add_feature", "annotate_from_gff", "annotate_matches_to", "copy_annotations", "replace_annotation_db",
+    "make_feature", "get_features", "get_drawable", "get_drawables", "shuffle", "to_json", "to_rich_dict",
+    "from_rich_dict", "parent_coordinates", "is_annotated", "with_masked_annotations", "to_html", "copy",
+    "gapped_by_map", "gapped_by_map_motif_iter", "gapped_by_map_segment_iter", "get_translation",
+    "trim_stop_codon", "has_terminal_stop",  # C12's entry points (need complete codons)
+}
+_OTHER_ARGS = {
+    "count": lambda t: (t[:1] or "A",),
+    "get_kmers": lambda t: (2,),
+    "iter_kmers": lambda t: (2,),
+    "sliding_windows": lambda t: (3, 2),
+    "replace": lambda t: (t[:1] or "A", "C"),
+    "frac_similar": lambda t: ("SELF", {("A", "G"): 1, ("G", "A"): 1}),
+    "matrix_distance": lambda t: ("SELF", {(a, b): (0 if a == b else 1) for a in "ACGTUN-RYKMSWBDHV" for b in "ACGTUN-RYKMSWBDHV"}),
+}
+_SELF_ARG = {"can_match", "can_mismatch", "can_mispair", "can_pair", "diff", "distance", "frac_diff", "frac_diff_gaps",
+             "frac_diff_non_gaps", "frac_same", "frac_same_gaps", "frac_same_non_gaps", "must_match", "must_pair"}
+
+
+def _canon(x, depth=0):
+    import re
+
+    import numpy
+
+    if hasattr(x, "moltype") and hasattr(x, "_seq"):
+        # the python class name is not compared: new-style to_rna()/to_dna() keep the class and swap the moltype
+        mt = x.moltype
+        return ("seq", getattr(mt, "label", None) or getattr(mt, "name", None), str(x))
+    if isinstance(x, (str, int, bool)) or x is None:
+        return x
+    if isinstance(x, float):
+        return round(x, 9)
+    if isinstance(x, numpy.generic):
+        return _canon(x.item())
+    if isinstance(x, numpy.ndarray):
+        return _canon(x.tolist())
+    if isinstance(x, dict):
+        return sorted((repr(_canon(k)), _canon(v)) for k, v in x.items())
+    if isinstance(x, (set, frozenset)):
+        return sorted(repr(_canon(v)) for v in x)
+    if isinstance(x, (list, tuple)) or hasattr(x, "__next__"):
+        return [_canon(v) for v in x]
+    if hasattr(x, "to_dict") and depth < 2:
+        try:
+            return _canon(x.to_dict(), depth + 1)
+        except Exception:
+            pass
+    return re.sub(r" at 0x[0-9a-f]+", "", repr(x))
+
+
+def _reflect_methods(seq):
+    import inspect
+
+    res = []
+    for n in dir(seq):
+        if n.startswith("_") or n in SKIP_METHODS:
+            continue
+        try:
+            a = getattr(seq, n)
+        except Exception:
+            continue
+        if not callable(a):
+            continue
+        try:
+            sig = inspect.signature(a)
+        except (TypeError, ValueError):
+            continue
+        req = [q.name for q in sig.parameters.values() if q.default is q.empty and q.kind in (q.POSITIONAL_ONLY, q.POSITIONAL_OR_KEYWORD)]
+        if not req:
+            res.append((n, lambda t: ()))
+        elif n in _SELF_ARG and len(req) == 1:
+            res.append((n, lambda t: ("SELF",)))
+        elif n in _OTHER_ARGS:
+            res.append((n, _OTHER_ARGS[n]))
+    return res
+
+
+def _call_method(seq, name, args):
+    args = tuple(seq if a == "SELF" else a for a in args)
+    try:
+        return ("ok", _canon(getattr(seq, name)(*args)))
+    except Exception as e:
+        return ("exc", type(e).__name__)
+
+
 def _call(f, s, t):
     try:
         return ("ok", f(s, t))
@@ -488,6 +577,15 @@ def spec_check(ctx, budget):
                             continue
                         add_failure(out, "spec", f"read-only method {name} differs from fresh sequence", dict(inp, method=name), b, a, sig=f"method:{kind}:{name}")
                     bump(out, "methods", name)
+                # reflection sweep
+                meths = _reflect_methods(seq)
+                for name, mkargs in rng.sample(meths, min(8, len(meths))):
+                    args = mkargs(cur)
+                    a = _call_method(seq, name, args)
+                    b = _call_method(fresh, name, args)
+                    bump(out, "reflected_methods", name)
+                    if a != b and not (a[0] == "exc" and b[0] == "exc"):
+                        add_failure(out, "spec", f"public method {name} differs from fresh sequence", dict(inp, method=name, reflected=True), b, a, sig=f"method:{kind}:{name}")
             if len(cur):
                 out["nontrivial"].add((kind, mt, text, str(ops)))
             bump(out, "chain_depth", len(ops))
@@ -515,6 +613,8 @@ def match_finding(f, k):
     if r.get("moltypes") and inp.get("moltype") not in r["moltypes"]:
         return False
     if r.get("needs_reversed") and not _was_reversed(inp.get("chain", [])):
+        return False
+    if r.get("got") and list(f.get("got") or []) != list(r["got"]):
         return False
     return True
 
@@ -544,8 +644,13 @@ def check_witness(ctx, w):
     for op in w["chain"]:
         seq = _apply_real(seq, op)
         mt, cur = _apply_spec(mt, cur, op)
-    fn = dict(READ_ONLY)[w["method"]]
-    a, b = _call(fn, seq, cur), _call(fn, _mk_seq(w["impl"], mt, cur, 0), cur)
+    fresh = _mk_seq(w["impl"], mt, cur, 0)
+    if w.get("reflected"):
+        margs = dict(_reflect_methods(seq))[w["method"]](cur)
+        a, b = _call_method(seq, w["method"], margs), _call_method(fresh, w["method"], margs)
+    else:
+        fn = dict(READ_ONLY)[w["method"]]
+        a, b = _call(fn, seq, cur), _call(fn, fresh, cur)
     if a != b:
         add_failure(out, "spec", f"read-only method {w['method']} differs from fresh sequence", w, b, a, sig=f"method:{w['impl']}:{w['method']}")
         return out["failures"][0]
